@@ -44,6 +44,8 @@ def _run_variant(args):
     rep = Rm.Report(prop=prop, tier="quick")
     try:
         mod.check(var, rep)
+        if not rep.findings():
+            rep.check_nonvacuous()
     except AnalysisError as e:
         return ("error", [str(e)])
     except Exception as e:  # pragma: no cover - checker crash
